@@ -31,6 +31,7 @@ type Case struct {
 	Src     string     `json:"src"`
 	Got     string     `json:"got"`
 	Note    string     `json:"note"`
+	Guard   string     `json:"guard"` // "fail": a package / import guard of the change does not hold; the file must stay as it is
 }
 
 type applyResult struct {
@@ -75,7 +76,7 @@ func sourceOf(v *Vector) (string, error) {
 }
 
 func runVector(v *Vector) *Case {
-	c := &Case{ID: v.ID, Prop: v.Prop, Class: v.Class, Metas: v.Metas, Pat: v.Pat, Plus: v.Plus, Note: v.Note}
+	c := &Case{ID: v.ID, Prop: v.Prop, Class: v.Class, Metas: v.Metas, Pat: v.Pat, Plus: v.Plus, Note: v.Note, Guard: v.Guard}
 	if c.Prop == nil {
 		c.Prop = []string{}
 	}
